@@ -69,8 +69,10 @@ type nilEngine struct {
 	paramCell     map[string]bool         // "<fn>|<param>.<field>" -> the cell is non-nil at entry (all call sites establish it)
 	cellWant      map[string]bool         // candidate param cells
 	retNN         map[*ssa.Function][]bool
-	retPair       map[*ssa.Function][]int // result idx -> error result idx when "err == nil => result non-nil", else -1
-	predNN        map[*ssa.Function][]int // bool function: returns true => these params are non-nil
+	retPair       map[*ssa.Function][]int    // result idx -> error result idx when "err == nil => result non-nil", else -1
+	predNN        map[*ssa.Function][]int    // bool function: returns true => these params are non-nil
+	retKey        map[*ssa.Function][]int    // one-result function: on return, the result is a key of these map parameters (of the same map object the caller passed)
+	predCell      map[*ssa.Function][]string // bool function: returns true => the cell "<param idx>|<field>" of a pointer parameter is non-nil on return
 	mods          map[*ssa.Function]map[string]bool
 	extTypes      map[string]string
 	entryNN       map[*ssa.Parameter]bool // contracts
@@ -109,7 +111,7 @@ func vid(v ssa.Value) string {
 func newNilEngine(c *Ctx, scope []*ssa.Function, roots []*ssa.Function) *nilEngine {
 	e := &nilEngine{c: c, p: c.P, fns: scope,
 		paramNN: map[*ssa.Parameter]bool{}, paramDyn: map[*ssa.Parameter]bool{}, paramCell: map[string]bool{}, cellWant: map[string]bool{},
-		retNN: map[*ssa.Function][]bool{}, retPair: map[*ssa.Function][]int{}, predNN: map[*ssa.Function][]int{},
+		retNN: map[*ssa.Function][]bool{}, retPair: map[*ssa.Function][]int{}, predNN: map[*ssa.Function][]int{}, predCell: map[*ssa.Function][]string{}, retKey: map[*ssa.Function][]int{},
 		entryNN: map[*ssa.Parameter]bool{}, roots: map[*ssa.Function]bool{}, mapValsNN: map[ssa.Value]int{}, structInv: map[string]int{},
 		byCtr: map[*ssa.Function]string{}, siteOK: map[ssa.Instruction]bool{}, siteFieldOK: map[ssa.Instruction]map[string]bool{}, siteKeys: map[ssa.Instruction]map[string]bool{}, assumed: map[string]string{}, used: map[string]int{}}
 	e.mods = c.P.modSets()
@@ -184,6 +186,18 @@ func (e *nilEngine) solve() {
 		}
 		e.retNN[f] = rn
 		e.retPair[f] = rp
+		// key candidates: the one result has the key type of a map parameter
+		if n == 1 && e.p.isModuleFn(f) {
+			var ks []int
+			for i, prm := range f.Params {
+				if mt, isMap := prm.Type().Underlying().(*types.Map); isMap && types.Identical(mt.Key(), f.Signature.Results().At(0).Type()) {
+					ks = append(ks, i)
+				}
+			}
+			if len(ks) > 0 {
+				e.retKey[f] = ks
+			}
+		}
 		// predicate candidates: the (last) result is a bool -- a plain predicate, or the ok of a (value, ok) helper
 		if n >= 1 {
 			if b, ok := f.Signature.Results().At(n - 1).Type().Underlying().(*types.Basic); ok && b.Kind() == types.Bool {
@@ -194,6 +208,24 @@ func (e *nilEngine) solve() {
 					}
 				}
 				e.predNN[f] = ps
+				// ... or a method that reports whether it could set a field of its receiver / pointer parameter
+				var cs []string
+				for i, prm := range f.Params {
+					pt, isPtr := prm.Type().Underlying().(*types.Pointer)
+					if !isPtr || !e.p.isModuleFn(f) {
+						continue
+					}
+					if sst, isSt := pt.Elem().Underlying().(*types.Struct); isSt && sst.NumFields() <= 12 {
+						for k := 0; k < sst.NumFields(); k++ {
+							if isNillable(sst.Field(k).Type()) {
+								cs = append(cs, fmt.Sprintf("%d|%s", i, sst.Field(k).Name()))
+							}
+						}
+					}
+				}
+				if len(cs) > 0 {
+					e.predCell[f] = cs
+				}
 			}
 		}
 		// candidate parameter cells
@@ -304,6 +336,9 @@ func (e *nilEngine) solve() {
 		newRet := map[*ssa.Function][]bool{}
 		newPair := map[*ssa.Function][]int{}
 		newPred := map[*ssa.Function][]int{}
+		newPredCell := map[*ssa.Function][]string{}
+		newRetKey := map[*ssa.Function][]int{}
+		newSiteKeys := map[ssa.Instruction]map[string]bool{}
 		newSite := map[ssa.Instruction]bool{}
 		newFieldOK := map[ssa.Instruction]map[string]bool{}
 		e.mapValsNN = map[ssa.Value]int{}
@@ -312,6 +347,12 @@ func (e *nilEngine) solve() {
 			newRet[f] = append([]bool{}, e.retNN[f]...)
 			newPair[f] = append([]int{}, e.retPair[f]...)
 			newPred[f] = append([]int{}, e.predNN[f]...)
+			if len(e.predCell[f]) > 0 {
+				newPredCell[f] = append([]string{}, e.predCell[f]...)
+			}
+			if len(e.retKey[f]) > 0 {
+				newRetKey[f] = append([]int{}, e.retKey[f]...)
+			}
 		}
 		for _, f := range e.all {
 			e.analyse(f, func(in ssa.Instruction, st fstate) {
@@ -325,7 +366,7 @@ func (e *nilEngine) solve() {
 							ks[strings.TrimSuffix(strings.TrimPrefix(k, "KEY:"), suffix)] = true
 						}
 					}
-					e.siteKeys[x] = ks
+					newSiteKeys[x] = ks
 				case *ssa.Store:
 					if isNillable(x.Val.Type()) {
 						newSite[x] = e.nonNil(x.Val, st, in, 0)
@@ -425,6 +466,39 @@ func (e *nilEngine) solve() {
 						}
 						newPred[f] = keep
 					}
+					if ks := newRetKey[f]; len(ks) > 0 && len(x.Results) == 1 {
+						var keep []int
+						for _, pj := range ks {
+							if _, has := st["KEY:"+canon(f.Params[pj])+"|"+canon(x.Results[0])]; has && !e.deleteReachable(f, f.Params[pj].Type()) {
+								keep = append(keep, pj)
+							}
+						}
+						newRetKey[f] = keep
+					}
+					if cs := newPredCell[f]; len(cs) > 0 && len(x.Results) > 0 {
+						rv := x.Results[len(x.Results)-1]
+						var keep []string
+						for _, cpair := range cs {
+							var pi int
+							var field string
+							if i := strings.Index(cpair, "|"); i > 0 {
+								fmt.Sscanf(cpair[:i], "%d", &pi)
+								field = cpair[i+1:]
+							}
+							ok := false
+							if k, isC := rv.(*ssa.Const); isC {
+								if bv, _ := constBool(k); !bv {
+									ok = true
+								} else if _, has := st["NNC:"+canon(f.Params[pi])+"."+field]; has {
+									ok = true
+								}
+							}
+							if ok {
+								keep = append(keep, cpair)
+							}
+						}
+						newPredCell[f] = keep
+					}
 				}
 			})
 		}
@@ -440,10 +514,25 @@ func (e *nilEngine) solve() {
 			}
 		}
 		for f := range newRet {
-			if fmt.Sprint(newRet[f]) != fmt.Sprint(e.retNN[f]) || fmt.Sprint(newPair[f]) != fmt.Sprint(e.retPair[f]) || fmt.Sprint(newPred[f]) != fmt.Sprint(e.predNN[f]) {
+			if fmt.Sprint(newRet[f]) != fmt.Sprint(e.retNN[f]) || fmt.Sprint(newPair[f]) != fmt.Sprint(e.retPair[f]) || fmt.Sprint(newPred[f]) != fmt.Sprint(e.predNN[f]) || fmt.Sprint(newPredCell[f]) != fmt.Sprint(e.predCell[f]) || fmt.Sprint(newRetKey[f]) != fmt.Sprint(e.retKey[f]) {
 				changed = true
 			}
 		}
+		// the key facts at the map updates are read by the key lemma (of this and of other functions): like the site
+		// facts they are those of the previous round, optimistic before the first
+		for in, ks := range newSiteKeys {
+			old, had := e.siteKeys[in]
+			if !had || len(old) != len(ks) {
+				changed = true
+				continue
+			}
+			for k := range ks {
+				if !old[k] {
+					changed = true
+				}
+			}
+		}
+		e.siteKeys = newSiteKeys
 		for k, v := range newSite {
 			if e.siteOK[k] != v {
 				changed = true
@@ -462,6 +551,8 @@ func (e *nilEngine) solve() {
 		e.siteOK = newSite
 		e.computeNilMods()
 		e.paramNN, e.paramCell, e.retNN, e.retPair, e.predNN = newParam, newCell, newRet, newPair, newPred
+		e.predCell = newPredCell
+		e.retKey = newRetKey
 		if !changed {
 			e.c.Stats["E1 summary rounds"] = round + 1
 			if os.Getenv("GTFSDEBUGFN") != "" {
@@ -827,6 +918,40 @@ func (e *nilEngine) refine(cond ssa.Value, val bool, st fstate, at ssa.Instructi
 					e.assumeNonNil(x.Call.Args[pi], st)
 				}
 			}
+			// the answer is about the state on return: it is used only when nothing can have written since
+			fresh := false
+			if blk := x.Block(); blk != nil {
+				after := false
+				fresh = true
+				for _, in := range blk.Instrs {
+					if in == ssa.Instruction(x) {
+						after = true
+						continue
+					}
+					if !after {
+						continue
+					}
+					switch in.(type) {
+					case *ssa.Store, *ssa.MapUpdate, *ssa.Call, *ssa.Go, *ssa.Defer, *ssa.Send:
+						fresh = false
+					}
+				}
+				if iff, isIf := blk.Instrs[len(blk.Instrs)-1].(*ssa.If); !isIf || iff.Cond != ssa.Value(x) {
+					fresh = false
+				}
+			}
+			for _, cpair := range e.predCell[cal] {
+				if !fresh {
+					break
+				}
+				var pi int
+				i := strings.Index(cpair, "|")
+				fmt.Sscanf(cpair[:i], "%d", &pi)
+				if pi < len(x.Call.Args) {
+					a := x.Call.Args[pi]
+					st["NNC:"+canon(a)+"."+cpair[i+1:]] = append(memFields(a), "="+typeName(a.Type())+"."+cpair[i+1:])
+				}
+			}
 		}
 	case *ssa.Phi:
 		// short-circuit: a && b lowered to phi(false, b): if the phi is true every edge value was true
@@ -1039,6 +1164,17 @@ func (e *nilEngine) transfer(in ssa.Instruction, st fstate) {
 			}
 			return
 		}
+		defer func() {
+			// a helper that reports the key under which it left an entry in the map it was handed
+			if call, isCall := x.(*ssa.Call); isCall && len(cs) == 1 && !cc.IsInvoke() {
+				for _, pj := range e.retKey[cs[0]] {
+					if pj < len(cc.Args) {
+						m := cc.Args[pj]
+						st["KEY:"+canon(m)+"|"+canon(call)] = []string{"map:" + m.Type().Underlying().String() + "!del"}
+					}
+				}
+			}
+		}()
 		for _, cal := range cs {
 			if e.p.fnIndex[cal] {
 				nm, ok := e.nilMods[cal]
@@ -1222,7 +1358,7 @@ func hasDelete(fn *ssa.Function, m ssa.Value) bool {
 				if isBuiltin(x, "len") {
 					continue
 				}
-				// handed to a module helper that only reads it (looks up, ranges, takes len; may hand it on likewise)
+				// handed to a module helper that never removes a key (looks up, ranges, takes len, adds entries; may hand it on likewise)
 				if readOnlyMapArg(x, m, 0) {
 					continue
 				}
@@ -1288,7 +1424,49 @@ func (e *nilEngine) keyFrom(m, k ssa.Value, d int) bool {
 						continue
 					}
 					n++
-					if mu.Parent() != m.Parent() || !e.siteKeys[mu][canon(m)] {
+					if mu.Parent() == m.Parent() {
+						if ks, known := e.siteKeys[mu]; known && !ks[canon(m)] {
+							return false
+						}
+						continue
+					}
+					// the set is filled in another function: there the key must have been known to be a key of a map
+					// parameter that is the very same map object as m (both trace back to one make)
+					same := false
+					if _, known := e.siteKeys[mu]; !known {
+						continue // not analysed yet (first round): decided in the next
+					}
+					om := e.p.valueOrigins(m)
+					if len(om) == 1 && !om.unknown() {
+						var cands []ssa.Value
+						for _, prm := range mu.Parent().Params {
+							cands = append(cands, prm)
+						}
+						for _, blk := range mu.Parent().Blocks {
+							for _, in := range blk.Instrs {
+								if mk, isMk := in.(*ssa.MakeMap); isMk {
+									cands = append(cands, mk)
+								}
+							}
+						}
+						for _, prm := range cands {
+							if !e.siteKeys[mu][canon(prm)] || !types.Identical(prm.Type(), m.Type()) {
+								continue
+							}
+							op := e.p.valueOrigins(prm)
+							if len(op) == 1 && !op.unknown() {
+								for o := range op {
+									if om[o] {
+										if _, isMk := o.(*ssa.MakeMap); isMk {
+											same = true
+										}
+									}
+								}
+							}
+						}
+					}
+					if !same {
+						debugf("keyFrom: update %s in %s: no counterpart of %s known to hold the key (site keys %v)", mu, mu.Parent(), canon(m), e.siteKeys[mu])
 						return false
 					}
 				}
@@ -2350,6 +2528,11 @@ func readOnlyMapArg(call *ssa.Call, m ssa.Value, d int) bool {
 		for _, r := range *prm.Referrers() {
 			switch x := r.(type) {
 			case *ssa.Lookup, *ssa.Range, *ssa.DebugRef:
+			case *ssa.MapUpdate:
+				// an entry added or replaced: the key set does not shrink (what the values are is mapValuesNonNil's subject)
+				if x.Map != ssa.Value(prm) {
+					return false
+				}
 			case *ssa.Call:
 				if isBuiltin(x, "len") {
 					continue
